@@ -267,6 +267,42 @@ def run(chk):
                     and close(k2.average_min_distance, sc * sc * k1.average_min_distance, rtol=ktol, atol=ktol)
                     and np.array_equal(k2.predict(f(Xk)), k1.predict(Xk))):
                 chk.fail("k-means centroids do not follow a rotation + uniform scaling + translation of the data", {"X": hexlist(Xk), "init": hexlist(init), "scale": sc})
+            # the same with a repeated initial centroid (two clusters start at the same point; the second one stays empty)
+            if i % 3 == 1 and len(init) >= 2:
+                init_d = np.array(init)
+                init_d[1] = init_d[0]
+                sc2 = 10.0 ** r.uniform(-7, 1)
+                f2 = lambda Z: sc2 * (Z @ Q.T) + t * sc2
+                d1, nd1, _ = kt.run_kfit(init_d, Xk, None, cap=2)
+                d2, nd2, _ = kt.run_kfit(f2(init_d), f2(Xk), None, cap=2)
+                chk.count(1, key=("kmeans-duplicate-init",))
+                if not (close(d2.centroids_, f2(np.asarray(d1.centroids_)), rtol=1e-6 if not big else 1e-4) and nd1 == nd2):
+                    chk.fail("k-means started from a repeated initial centroid does not follow a rotation + uniform scaling (%.3g) + translation of the data" % sc2,
+                             {"X": hexlist(Xk), "init": hexlist(init_d), "scale": sc2})
+        # ---- a feature that is constant within the data (a dead / quantised channel): its variance is rounding noise below the floor in any units
+        if i % 4 == 3:
+            wq, muq, varq, sq, Xq = gt.gen_training(r, C=2, D=2, N=12, scale="unit")
+            Xq = np.array(Xq)
+            Xq[:, 0] = 0.0
+            muq = np.array(muq)
+            muq[:, 0] = 0.0
+            thrq = 1e-6 * np.ones(2)
+            for bq in (0.3, 0.7, 1.1, 2.9):
+                aq, bqv = np.array([1.0, 1.0]), np.array([bq, 0.0])
+                cq_ = dict(w=wq, mu=muq, var=varq, thr=thrq, sw=(True, True, True), eps=eps, cap=2, cthr=None)
+                cqt = dict(cq_, mu=muq + bqv)
+                e1, _ = gt.build_machine(cq_)
+                e2, _ = gt.build_machine(cqt)
+                gt.run_fit(e1, Xq)
+                gt.run_fit(e2, Xq + bqv)
+                chk.count(1, key=("constant-feature-shift",))
+                if np.any(np.asarray(e1.acc_stats(Xq).n) < eps):
+                    continue
+                if not (close(e2.means, np.asarray(e1.means) + bqv, rtol=1e-6) and close(e2.variances, e1.variances, rtol=1e-5) and close(e2.weights, e1.weights, rtol=1e-7)):
+                    chk.fail("ML training with a feature that is constant in the data is not equivariant under a shift of that feature by %g (variances %s vs %s)"
+                             % (bq, np.asarray(e2.variances).tolist(), np.asarray(e1.variances).tolist()),
+                             {"X": hexlist(Xq), "b": hexlist(bqv), "w": hexlist(wq), "mu": hexlist(muq), "var": hexlist(varq), "floor": 1e-6})
+                    break
         if i < 2:
             chk.sample(ctx)
     chk.notes["correspondence"] = ("the transformed and untransformed runs both go through the implementation; the model functions the theorems are about are tied to "
